@@ -74,6 +74,7 @@ func checkText(c Case) (used map[string]bool, class string, err error) {
 	vs := pool(c.nvars())
 	s := subst{}
 	ok, sto := s.unify(c.A, c.B)
+	stoOther := !sto && !ok && stoAny(c.A, c.B) // a clash in left-to-right order, an occurs check in another: =/2 is undefined
 	i, e := newInterp(c.DQ)
 	if e != nil {
 		return used, "", e
@@ -121,7 +122,12 @@ func checkText(c Case) (used map[string]bool, class string, err error) {
 		}
 	default:
 		class = "clash"
-		for _, test := range []string{"\\+ A = B", "(A = B ; true)", "\\+ unify_with_occurs_check(B, A)", "(B = A -> fail ; true)"} {
+		tests := []string{"\\+ A = B", "(A = B ; true)", "\\+ unify_with_occurs_check(B, A)", "(B = A -> fail ; true)"}
+		if stoOther {
+			class = "clash_or_sto_by_order"
+			tests = []string{"\\+ unify_with_occurs_check(B, A)", "\\+ unify_with_occurs_check(A, B)"}
+		}
+		for _, test := range tests {
 			r := run(test)
 			if r.Err != nil {
 				return used, class, fmt.Errorf("%s raised %s", test, r.Err)
@@ -135,7 +141,7 @@ func checkText(c Case) (used map[string]bool, class string, err error) {
 		}
 	}
 	// clause-head unification: h(A) stored (its variables become clause-local), called as h(B)
-	if !sto {
+	if !sto && !stoOther {
 		ren := map[int64]int64{}
 		for _, id := range c.A.Vars(nil) {
 			ren[id] = id + 1000
@@ -143,7 +149,7 @@ func checkText(c Case) (used map[string]bool, class string, err error) {
 		a2 := c.A.Rename(ren)
 		s2 := subst{}
 		ok2, sto2 := s2.unify(a2, c.B)
-		if !sto2 {
+		if !sto2 && !(!ok2 && stoAny(a2, c.B)) {
 			r := i.Query(strings.Join(append(append([]string{}, prelude...), "A = "+ta, "B = "+tb, "assertz(hd(A))", "Keep = t("+strings.Join(vnames, ",")+")", "hd(B)"), ", ")+".", append([]string{"B"}, vnames...), 3, 2_000_000)
 			if r.Err != nil {
 				return used, class, fmt.Errorf("head unification raised %s", r.Err)
@@ -185,6 +191,7 @@ func checkGo(c Case) (used map[string]bool, class string, err error) {
 	vs := pool(c.nvars())
 	s := subst{}
 	ok, sto := s.unify(c.A, c.B)
+	stoOther := !sto && !ok && stoAny(c.A, c.B)
 	i := sut.New()
 	for _, mode := range []string{"=", "=sym", "uwoc"} {
 		vars := map[int64]engine.Variable{}
@@ -195,7 +202,7 @@ func checkGo(c Case) (used map[string]bool, class string, err error) {
 		for k, v := range vs {
 			pv[k] = ga.Build(v)
 		}
-		if sto && mode != "uwoc" {
+		if (sto || stoOther) && mode != "uwoc" {
 			continue
 		}
 		var got []*rt.Term
@@ -418,6 +425,11 @@ func TestProp(t *testing.T) {
 	defer r.Finish(t)
 	r.Rule("rapid-generated pairs of abstract terms of depth <= 4 over a shared variable pool V0..V4 (atoms incl. '', [], non-ASCII; integers; floats; compounds with the same name at several arities incl. './1 and './3; proper, partial and improper lists; string-like lists), drawn from a mixture: independent; B derived from A by partial instantiation/generalisation (unifiable, non-trivial mgu); such a copy with a one-point mutation deep inside (clash after many successful sub-unifications); a copy with a variable replaced by a term containing it (subject to occurs check); a stress class binding 30-200 variables at once. Every list node of each side is built through an independently chosen construction recipe - text: bracket/| notation, './2 compound, append/3 (pointer-tailed partial list), double-quoted literal, atom_chars/atom_codes, =../2, append over a string prefix, length/2 skeleton, findall/3, copy_term/2, under double_quotes chars and codes; Go: engine.List, PartialList (also over a string prefix), CharList, CodeList, Atom('.').Apply with engine.Unify / UnifyWithOccursCheck called directly. Oracle: reference Robinson unification with occurs check. Unifiable: =/2 succeeds, A == B, the tuple (A, B, V0..V4) is a variant of the mgu's, B = A and unify_with_occurs_check/2 give the same, clause-head unification hd(A) called as hd(B) gives the same bindings, (hook) the resulting environment is a valid search tree; clash: =/2 fails and \\+ A = B, (A = B ; true) leave every variable as before; occurs-check pairs: only unify_with_occurs_check/2 is asserted (it fails); subsumes_term/2 agrees with the reference matcher. Non-trivial: both sides compound, a variable shared between the sides or repeated, and at least two different recipes used. Distinct by case.",
 		"reference unifier props/c02/refunify.go", "pairs subject to occurs check are excluded for =/2 (ISO leaves them undefined)")
+	if r.Shard() == 0 {
+		if err := stoSelfTest(); err != nil {
+			t.Fatalf("infrastructure: %v", err)
+		}
+	}
 	r.Regress(t)
 	if r.Failed() {
 		return
